@@ -434,6 +434,68 @@ def check_ts_sync(rep, repo, tier):
 PIPE_S = ('obj', 'pipe')
 
 
+U_CHECK = 'lib/upipe-ts/upipe_ts_check.c'
+
+
+def check_ts_check(rep, repo, tier):
+    """upipe_ts_check_input: whole packets starting with the sync octet, in order; the rest dropped loudly"""
+    import itertools
+    from upv import ghost, tsref
+    if not facts.have_stubs():
+        return
+    prog = facts.load_with_stubs([], [U_CHECK], repo=repo, tolerate=False)
+    u = prog.units[U_CHECK]
+    for n in ('upipe_ts_check_input', 'upipe_ts_check_check'):
+        if n not in u.funcs:
+            raise facts.AnalysisBroken('anchor vanished: %s' % n)
+    rep.units.append(U_CHECK + ' (parsed against stubs/bitstream)')
+    rep.rule('R-check', 'upipe_ts_check_input interpreted on ghost buffers of 0..3 packets of 4 octets plus 0..3 trailing octets, each packet starting with the '
+             'sync octet or not: the units output are the leading packets that start with the sync octet, whole, unmodified and in order, up to the first '
+             'packet that does not (that one and what follows are dropped); trailing octets are dropped; every buffer is output or freed exactly once')
+    P = 4
+    fn = u.funcs['upipe_ts_check_input']
+    n = 0
+    for npk in range(0, 4):
+        for syncs in itertools.product((1, 0), repeat=npk):
+            for trail in range(0, P):
+                n += 1
+                data, pkts = [], []
+                for i, ok in enumerate(syncs):
+                    pk = [0x47 if ok else 0x48] + tsref.payload_tokens('p%d' % i, P - 1)
+                    pkts.append(pk)
+                    data += pk
+                data += tsref.payload_tokens('t', trail)
+                inst = 'packets=%s,trailing=%d' % (''.join(map(str, syncs)) or '-', trail)
+                what = None
+                try:
+                    m = ghost.BlockMachine(prog, u, 'upipe_ts_check', {'output_size': P}, inline=('upipe_ts_check_check', 'upipe_ts_check_sync_'))
+                    m.max_depth = 8
+                    m.output_fns = {'upipe_ts_check_output'}
+                    ur = m.new_uref(data)
+                    m.run(fn, [PIPE_S, ur, ('null',)])
+                    outs = [e[2] for e in m.events if e[0] == 'output']
+                    want = []
+                    for pk, ok in zip(pkts, syncs):
+                        if not ok:
+                            break
+                        want.append(pk)
+                    if outs != want:
+                        what = '%d units output, the reference says %d (the leading packets that start with the sync octet)' % (len(outs), len(want))
+                    else:
+                        lu, lb = m.leaked()
+                        if lu or lb:
+                            what = 'urefs %s / buffers %s are neither output nor freed' % (lu, lb)
+                except Finding as f:
+                    what = str(f)
+                except PathEnd:
+                    what = 'an assert() fails'
+                except Undecided as e:
+                    rep.add('R-check', inst, UNDECIDED, fn.loc, why=str(e))
+                    continue
+                rep.add('R-check', inst, VIOLATED if what else HOLDS, fn.loc, **({'what': what} if what else {}))
+    rep.tables['R-check'] = {'abstract_runs': n}
+
+
 def run(tier='quick', repo=None):
     repo = repo or facts.REPO
     rep = Report(PROP, tier)
@@ -571,4 +633,5 @@ def run(tier='quick', repo=None):
     rep.assumptions = ['contract of the uref_stream helper: append adds the octets of the buffer, extract(n) removes and returns n octets, next_uref is non-NULL exactly while octets are pending',
                        'configuration values beyond the enumerated ranges behave alike (the code only compares and does integer division on them)']
     check_ts_sync(rep, repo, tier)
+    check_ts_check(rep, repo, tier)
     return rep
